@@ -492,3 +492,100 @@ func (c *Ctx) nodeWithHelpers(rel string, n ast.Node, depth int) []ast.Node {
 	}
 	return out
 }
+
+// armExpansion: the statements of a type-switch arm with a delegating call replaced by the statements of the
+// unexported same-package function it calls (one level), and the substitution of that function's parameters
+// by the arguments of this call. A statement `h(args)` is expanded when h is unexported, declared in the
+// package, and at least one argument mentions the arm's node (so that "in the arm" keeps meaning "what is
+// done for this node kind" after a maintainer moves an arm into a method of its own).
+type armExpansion struct {
+	stmts   []ast.Stmt
+	subst   map[types.Object]ast.Expr
+	returns bool
+}
+
+func (c *Ctx) expandArm(rel string, body []ast.Stmt) armExpansion {
+	p := c.Pkgs[rel]
+	out := armExpansion{subst: map[types.Object]ast.Expr{}}
+	if p == nil {
+		out.stmts = body
+		return out
+	}
+	info := p.TypesInfo
+	byFunc := map[*types.Func]*ast.FuncDecl{}
+	for _, d := range c.allFuncDecls(rel) {
+		if fn, ok := info.Defs[d.Name].(*types.Func); ok {
+			byFunc[fn] = d
+		}
+	}
+	for _, s := range body {
+		if _, ok := s.(*ast.ReturnStmt); ok {
+			out.returns = true
+		}
+		es, ok := s.(*ast.ExprStmt)
+		if !ok {
+			out.stmts = append(out.stmts, s)
+			continue
+		}
+		call, ok := es.X.(*ast.CallExpr)
+		if !ok {
+			out.stmts = append(out.stmts, s)
+			continue
+		}
+		hd := byFunc[calleeFunc(call, info)]
+		if hd == nil || hd.Name.IsExported() || hd.Body == nil || len(hd.Body.List) < 2 {
+			out.stmts = append(out.stmts, s)
+			continue
+		}
+		// a pure dispatcher (the recursive walker itself) is not an arm helper
+		recursive := false
+		ast.Inspect(hd.Body, func(x ast.Node) bool {
+			if _, ok := x.(*ast.TypeSwitchStmt); ok {
+				recursive = true
+			}
+			return true
+		})
+		mentionsNode := false
+		for _, a := range call.Args {
+			if tv, ok := info.Types[a]; ok {
+				if r, _, ok := relPkgOfType(tv.Type); ok && r == "ast" {
+					mentionsNode = true
+				}
+			}
+			if se, ok := ast.Unparen(a).(*ast.SelectorExpr); ok {
+				if tv, ok := info.Types[se.X]; ok {
+					if r, _, ok := relPkgOfType(tv.Type); ok && r == "ast" {
+						mentionsNode = true
+					}
+				}
+			}
+		}
+		if recursive || !mentionsNode {
+			out.stmts = append(out.stmts, s)
+			continue
+		}
+		k := 0
+		for _, fl := range hd.Type.Params.List {
+			for _, nm := range fl.Names {
+				if k < len(call.Args) {
+					if o := info.Defs[nm]; o != nil {
+						out.subst[o] = call.Args[k]
+					}
+				}
+				k++
+			}
+		}
+		out.stmts = append(out.stmts, hd.Body.List...)
+	}
+	return out
+}
+
+// substArg: e with a helper parameter replaced by the argument it stands for in this arm.
+func (x armExpansion) substArg(e ast.Expr, info *types.Info) ast.Expr {
+	if id, ok := ast.Unparen(e).(*ast.Ident); ok {
+		if a, ok := x.subst[info.Uses[id]]; ok {
+			return a
+		}
+	}
+	return e
+}
